@@ -176,13 +176,26 @@ def drift(rng, tier):
             randn = getattr(pp, 'randn_' + g); randa = getattr(pp, 'randn_' + S.ALG[g])
             X = randn(dtype=dtype); worst = 0.0
             Ys = randn(64, sigma=0.3, dtype=dtype); As = randa(64, sigma=0.1, dtype=dtype)
+            ls = None
+            if g in ('RxSO3', 'Sim3'):
+                ls = float(S.parts(g, X.tensor())[2].double().log())
+                idt = getattr(pp, 'identity_' + g)(dtype=dtype).tensor()
+                up, dn = idt.clone(), idt.clone(); up[-1] = 2.0; dn[-1] = 0.5
+                Zup, Zdown = pp.LieTensor(up, ltype=getattr(pp, g + '_type')), pp.LieTensor(dn, ltype=getattr(pp, g + '_type'))
             for i in range(n_ops):
                 op = rng.randrange(4)
+                if ls is not None and abs(ls) > 6.0:
+                    # keep the exact scale inside the property's range [e^-8, e^8]: the history continues with a product that
+                    # scales back (a legitimate @ update); without it the random walk of log-scale leaves the float32 range,
+                    # which is exhaustion of the number format, not accumulated round-off
+                    X = X @ (Zdown if ls > 0 else Zup); ls = float(S.parts(g, X.tensor())[2].double().log()); evals += 1
+                    continue
                 if op == 0: X = X @ Ys[i % 64]
                 elif op == 1: X = X.Inv()
                 elif op == 2: X = X.Retr(As[i % 64])
                 else: X.add_(As[(i * 7) % 64])
                 evals += 1
+                if ls is not None: ls = float(S.parts(g, X.tensor())[2].double().log())
                 if i % 50 == 49 or i == n_ops - 1:
                     t, q, s = S.parts(g, X.tensor())
                     dq = abs(float(q.double().norm()) - 1.0)
